@@ -123,7 +123,7 @@ def _cli_shape_impl(shape):
         import random
         scn = L.gen_scenario(random.Random(1), runs=1, allow_known=False)
         scn["truth"] = shape["truth"]
-        scn.update(body=None, wide=None, truth_edit=False, with_returns=False, files=None)
+        scn.update(body=None, wide=None, truth_edit=False, with_returns=False, files=None, prose_special=None, alternate=None)
         scn["given"] = list(L.KINDS)
         scn["targets"] = {k: {"pre": "agreeing", "n_sur": 0, "position": "after", "trailing_newline": True, "sur_seed": 1, "members": 0}
                           for k in L.KINDS if k != shape["truth"]}
